@@ -334,13 +334,21 @@ func (it *Interp) Branch(c *smt.Term) bool {
 		it.take(c, dec{taken: v, forced: true})
 		return v
 	}
+	// sampling pre-solver (models_sample.go): a concrete witness for each side means a fork, no solver call
+	sc, sn := it.sampleSat(c), it.sampleSat(it.C.Not(c))
+	if sc && sn {
+		alt := append(append([]dec{}, p.Decs...), dec{taken: false})
+		it.push(alt)
+		it.take(c, dec{taken: true})
+		return true
+	}
 	// cheap pass: constraints that only talk about the atoms of the condition (ranges, earlier decisions)
-	if it.quickUnsat(c) {
+	if !sc && it.quickUnsat(c) {
 		d := dec{taken: false, forced: true}
 		it.take(c, d)
 		return false
 	}
-	if it.quickUnsat(it.C.Not(c)) {
+	if !sn && it.quickUnsat(it.C.Not(c)) {
 		d := dec{taken: true, forced: true}
 		it.take(c, d)
 		return true
